@@ -628,7 +628,7 @@ def minimize_lbfgsb(
                         jac=grad,
                         nfev=sf.nfev,
                         njev=sf.ngev,
-                        nit=istate.nit,
+                        nit=istate.nit + 1,
                         status=istate.warnflag,
                         message=istate.task_str,
                         x=np.copy(x),
